@@ -32,7 +32,11 @@ MsmDevs(l0, e) ==
   ELSE IF e.err THEN <<Dev(l0, "C09", <<"error on well-formed input", e.n, e.tasks>>, sig("error"))>>
   ELSE LET want == EMsm(e.scalars, [i \in 1 .. Len(e.pts) |-> <<e.pts[i][1], e.pts[i][2]>>])
        IN  (IF ~IValid(e.out) THEN <<Dev(l0, "C09", <<"result is not a valid element", e.kind, e.n, e.tasks, e.mont>>, sig("invalid"))>>
-            ELSE One(EEq(IAff(e.out), want), l0, "C09", <<"result differs from sum s_i P_i", e.kind, e.n, e.tasks, e.mont, e.small, e.pcls, e.scls, IF Has(e, "c") THEN e.c ELSE 0>>, sig("value"))) \o
+            ELSE One(EEq(IAff(e.out), want), l0, "C09", <<"result differs from sum s_i P_i", e.kind, e.n, e.tasks, e.mont, e.small, e.pcls, e.scls, IF Has(e, "c") THEN e.c ELSE 0>>, sig("value")) \o
+                 \* the same slices after in-place changes, or a call after a history of other calls: a wrong result here is a dependence on earlier calls
+                 (IF e.pcls \in {"reuse", "history", "after-mismatches"}
+                  THEN One(EEq(IAff(e.out), want), l0, "C13", <<"the result of a call depends on the calls that preceded it (reused slices / history)", e.pcls, e.n, e.tasks>>, sig("history"))
+                  ELSE <<>>)) \o
            (IF Has(e, "inputs_unchanged") THEN One(e.inputs_unchanged, l0, "C13", "MultiExp modified its input slices", sig("inputs")) ELSE <<>>) \o
            (IF Has(e, "tails_unchanged") THEN One(e.tails_unchanged, l0, "C13", "MultiExp wrote into the spare capacity of a caller's slice", sig("capacity")) ELSE <<>>) \o
            (IF Has(e, "aff_err") THEN One(~e.aff_err /\ EEq(<<e.aff[1], e.aff[2]>>, want), l0, "C09", <<"MultiExpAffine differs from sum s_i P_i", e.n, e.tasks>>, sig("affine")) ELSE <<>>) \o
